@@ -272,7 +272,7 @@ def check_property(prop, tier, a):
                         'lineno': o['witness'].get('lineno'), 'detail': o['witness'].get('detail'),
                         'path': o['witness'].get('path'), 'native_replay': rep,
                         'smt2': o['witness'].get('smt', '')})
-            structural_global = o['contract'] == 'structural' and any(k in o['oid'] for k in ('::ownership:memo:', '::ownership:global:', '::registry-write:', '::ownership:attr:self.', '::ownership:mut:self.', '::ownership:item:self.', '::per-execution-allocation:', '::instance-state:'))
+            structural_global = o['contract'] == 'structural' and any(k in o['oid'] for k in ('::ownership:memo:', '::ownership:global:', '::registry-write:', '::ownership:attr:self.', '::ownership:mut:self.', '::ownership:item:self.', '::ownership:classattr:', '::per-execution-allocation:', '::instance-state:'))
             # a write to a declared field outside the contract's modifies clause: on the baseline the frame of that contract was
             # discharged as one summary obligation (no per-field obligation exists while nothing is written), so the per-field
             # failure is a regression of that summary.  (Writes to attributes the contract's shape does not know are not
